@@ -191,6 +191,9 @@ def gen_na(rng, tier):
             for fi in range(len(FILLS[xt])):
                 yield {"fam": "na", "xt": xt, "x": cfill(rng, xt, px), "fill": fi,
                        "xtyped": (rng.random() < 0.5) if all(px) else False}
+        for px in all_patterns(3):
+            if any(px):
+                yield {"fam": "na", "xt": xt, "x": cfill(rng, xt, px), "fill": 0, "xtyped": "declared"}
 
 
 def gen_agg(rng, tier):
@@ -252,6 +255,10 @@ def generate(rng, tier):
 def cvector(t, xs, typed):
     from serif import Vector
     from serif.typing import DataType
+    if typed == "declared":
+        # the caller declares the kind with a plain Python type (Vector(..., dtype=object)): the declared dtype is
+        # non-nullable whatever the data holds; isna / dropna / fillna must still agree on where the Nones are
+        return Vector(list(xs), dtype=(object if t == "obj" else G.PYTYPE.get(t, object)))
     if typed and all(x is None for x in xs):
         return Vector(list(xs), dtype=DataType(G.PYTYPE.get(t, object), nullable=bool(xs)))
     return Vector(list(xs))
